@@ -930,6 +930,192 @@ def sibling_case(rng, allstd):
             "sib": tags}
 
 
+# ------------------------------------------------------------------------------------------------ container paths
+# "Resolution reaches every depth": whichever chain of containers leads from the expression being resolved down to
+# an opaque type, the type at the end is resolved.  A chain is a list of steps; a step names the container and the
+# slot the next link sits in.  Steps from a type: sum / tuple / fin / fout (function type input / output; the child
+# is a type), opqR / opqU (argument of a resolvable / of an unresolvable opaque type; the child is a type argument).
+# Steps from a type argument: type (the child is a type), seq (the child is a type argument).  The random streams
+# reach a given chain with a probability that falls geometrically with its length and some pairs (a sequence directly
+# inside a sequence) need two unlikely draws in a row; the path stream enumerates every chain up to a length and
+# samples longer ones, as a bare type / type argument and as signature / type argument of a custom node.
+TY_STEPS = {"sum": "ty", "tuple": "ty", "fin": "ty", "fout": "ty", "opqR": "arg", "opqU": "arg"}
+ARG_STEPS = {"type": "ty", "seq": "arg"}
+PATH_EXT, PATH_BOX_EXT, PATH_OP_EXT = "ext.a", "ext.b", "ext.ops"
+
+
+def paths(sort, n):
+    """every chain of n steps that starts at a `sort` ("ty" | "arg") and ends at a type (the opaque leaf)"""
+    if n == 0:
+        if sort == "ty":
+            yield []
+        return
+    for s, child in (TY_STEPS if sort == "ty" else ARG_STEPS).items():
+        for rest in paths(child, n - 1):
+            yield [s] + rest
+
+
+def rand_path(rng, sort, n):
+    p, cur = [], sort
+    for _ in range(n):
+        s = rng.choice(sorted(TY_STEPS if cur == "ty" else ARG_STEPS))
+        p.append(s)
+        cur = (TY_STEPS if cur == "ty" else ARG_STEPS)[s]
+    return p if cur == "ty" else p + ["type"]      # a chain ends at a type: close it with a type step
+
+
+def param_of(a):
+    """a type parameter that the type argument tree `a` fits"""
+    k = a[0]
+    if k == "type":
+        return ["type", "A"]
+    if k == "nat":
+        return ["nat", None]
+    if k == "str":
+        return ["string"]
+    if k == "exts":
+        return ["exts"]
+    if k == "seq":
+        ps = [param_of(x) for x in a[1]]
+        if not ps:
+            return ["list", ["type", "A"]]
+        return ["list", ps[0]] if all(p == ps[0] for p in ps) else ["tuple", ps]
+    raise AssertionError(a)
+
+
+class PathBuilder:
+    """builds the expression of a chain; collects the type definitions its resolvable containers need"""
+
+    def __init__(self, rng=None, leaf_bound="C"):
+        self.rng, self.boxes = rng, []
+        self.leaf = ["opaque", PATH_EXT, "T", [], leaf_bound]
+        self.leaf_def = {"name": "T", "descr": "", "params": [], "bound": ["E", leaf_bound]}
+
+    def pad_tys(self):
+        if self.rng is None or self.rng.random() < 0.4:
+            return []
+        return [self.rng.choice([["unit", 2], ["usize"], ["qubit"], ["opaque", "nowhere", "U", [], "C"], self.leaf])
+                for _ in range(self.rng.randint(1, 2))]
+
+    def pad_args(self):
+        if self.rng is None or self.rng.random() < 0.4:
+            return []
+        return [self.rng.choice([["nat", 3], ["str", "s"], ["seq", []], ["seq", [["nat", 0]]], ["type", ["qubit"]],
+                                 ["exts", ["ext.a"]], ["type", self.leaf]])
+                for _ in range(self.rng.randint(1, 2))]
+
+    def place(self, x, pad):
+        l = list(pad)
+        l.insert(self.rng.randrange(len(l) + 1) if self.rng is not None else 0, x)
+        return l
+
+    def ty(self, steps):
+        if not steps:
+            return self.leaf
+        s, rest = steps[0], steps[1:]
+        if s in ("opqR", "opqU"):
+            args = self.place(self.arg(rest), self.pad_args())
+            if s == "opqU":
+                return ["opaque", "nowhere", "U", args, "A" if self.rng is None else self.rng.choice("CA")]
+            params = [param_of(a) for a in args]
+            tidx = [i for i, a in enumerate(args) if a[0] == "type"]
+            if tidx and (self.rng is None or self.rng.random() < 0.5):
+                bound = ["P", tidx if self.rng is None or self.rng.random() < 0.7 else tidx[:1]]
+            else:
+                bound = ["E", "A" if self.rng is None else self.rng.choice("CA")]
+            td = {"name": "B%d" % len(self.boxes), "descr": "", "params": params, "bound": bound}
+            self.boxes.append(td)
+            return ["opaque", PATH_BOX_EXT, td["name"], args, def_bound(td, args)]
+        child = self.ty(rest)
+        if s == "sum":
+            rows = [self.place(child, self.pad_tys())]
+            if self.rng is not None and self.rng.random() < 0.5:
+                rows.insert(self.rng.randrange(2), self.pad_tys())
+            elif self.rng is None:
+                rows.insert(0, [])       # two variants: stays a general sum after a round trip
+            return ["sum", rows]
+        if s == "tuple":
+            return ["tuple", self.place(child, self.pad_tys())]
+        reqs = [] if self.rng is None else self.rng.sample(GEN_EXTS, self.rng.randint(0, 1))
+        if s == "fin":
+            return ["func", self.place(child, self.pad_tys()), self.pad_tys(), reqs]
+        if s == "fout":
+            return ["func", self.pad_tys(), self.place(child, self.pad_tys()), reqs]
+        raise AssertionError(s)
+
+    def arg(self, steps):
+        s, rest = steps[0], steps[1:]
+        if s == "type":
+            return ["type", self.ty(rest)]
+        if s == "seq":
+            return ["seq", self.place(self.arg(rest), self.pad_args())]
+        raise AssertionError(s)
+
+    def registry(self, mode):
+        """complete | leaf-only (the containers' definitions missing: they stay opaque, the leaf inside them is
+        resolved) | boxes-only (the leaf stays opaque at every depth) | empty; the operation is always defined"""
+        reg = [{"name": PATH_OP_EXT, "types": [], "ops": [{"name": "Id", "descr": "identity", "sig": "poly"}]}]
+        if mode in ("complete", "leaf-only"):
+            reg.append({"name": PATH_EXT, "types": [self.leaf_def], "ops": []})
+        if mode in ("complete", "boxes-only") and self.boxes:
+            reg.append({"name": PATH_BOX_EXT, "types": json.loads(json.dumps(self.boxes)), "ops": []})
+        return [] if mode == "empty" else reg
+
+
+def path_case(sort, steps, where, mode, rng=None):
+    """where: "bare" (the expression itself), "op-arg" / "op-sig" (a custom node of a loaded HUGR)"""
+    pb = PathBuilder(rng, "C" if rng is None else rng.choice("CA"))
+    x = pb.ty(steps) if sort == "ty" else pb.arg(steps)
+    tag = {"path": "/".join(steps), "mode": "path:" + mode, "where": where}
+    reg = pb.registry(mode)
+    if rng is not None:
+        rng.shuffle(reg)
+    if where == "bare":
+        if sort == "ty":
+            return {"kind": "ty", "via": "loaded", "reg": reg, "t": x, **tag}
+        return {"kind": "arg", "via": "loaded", "reg": reg, "a": x, **tag}
+    node = {"op": "custom", "ext": PATH_OP_EXT, "name": "Id", "descr": "identity",
+            "sig": {"in": [], "out": [], "reqs": [PATH_OP_EXT]}, "args": []}
+    if where == "op-arg":
+        assert sort == "arg"
+        node["args"] = pb.place(x, pb.pad_args())
+    else:
+        assert sort == "ty"
+        pos = "in" if rng is None or rng.random() < 0.5 else "out"
+        node["sig"][pos] = pb.place(x, pb.pad_tys())
+    nodes = [node]
+    if rng is not None and rng.random() < 0.3:
+        nodes.insert(rng.randrange(2), {"op": "std", "which": rng.choice(STD_OPS), "ty": ["qubit"]})
+    return {"kind": "hugr", "via": "loaded", "reg": reg, "nodes": nodes, **tag}
+
+
+def path_stream(rng, tier):
+    quick = tier == "quick"
+    # deterministic: every chain up to length 3 (quick) / 5 (thorough), complete registry, no padding; chains through
+    # a resolvable container also against the registry without the containers' definitions
+    for n in range(1, 4 if quick else 6):
+        for sort in ("ty", "arg"):
+            for p in paths(sort, n):
+                yield path_case(sort, p, "bare", "complete")
+                if "opqR" in p and n <= 3:
+                    yield path_case(sort, p, "bare", "leaf-only")
+    # ... and as type argument / signature of a custom node of a loaded HUGR
+    for n in range(1, 4 if quick else 5):
+        for p in paths("arg", n):
+            yield path_case("arg", p, "op-arg", "complete")
+    for n in range(0, 3 if quick else 4):
+        for p in paths("ty", n):
+            yield path_case("ty", p, "op-sig", "complete")
+    # sampled: longer chains, padded containers (the chain is one element among others, at a random position), every
+    # registry mode
+    for _ in range(120 if quick else 2400):
+        sort = rng.choice(["ty", "arg"])
+        p = rand_path(rng, sort, rng.choice([2, 3, 4, 4, 5, 6]))
+        where = rng.choice(["bare", "bare", "op-arg" if sort == "arg" else "op-sig"])
+        mode = rng.choice(["complete", "complete", "leaf-only", "leaf-only", "boxes-only", "empty"])
+        yield path_case(sort, p, where, mode, rng)
+
+
 STD_OPS = ["noop", "not", "divmod", "maketuple", "tag", "dfg", "iadd", "fadd", "list_push"]
 
 
@@ -1054,8 +1240,13 @@ class C11(fw.Prop):
             "one base node (same operation, differing in the extension of one or all same-named opaque types in "
             "signature / type arguments, in the description, or in one component at any depth, plus exact duplicates) "
             "over twin extensions defining the same type names, with registries knowing exactly one twin, both, "
-            "neither, or a twin without its types.  non-trivial = resolution changed the object and at least one opaque "
-            "type or operation stayed opaque, or opaque types are nested at depth >= 2")
+            "neither, or a twin without its types; a path stream: every chain of containers (sum, tuple, function type "
+            "input / output, argument of a resolvable / unresolvable opaque type, type argument, sequence argument, in "
+            "every order, so also a sequence directly inside a sequence) of length <= 3 (thorough: <= 5) down to a "
+            "resolvable opaque type, as a bare type / type argument and as signature / type argument of a custom node of a "
+            "loaded HUGR, plus sampled chains of length <= 7 with padded containers against complete / containers-missing "
+            "/ leaf-missing / empty registries.  non-trivial = resolution changed the object and at least one opaque "
+            "type or operation stayed opaque, or opaque types are nested at depth >= 2, or the case is a chain of >= 2 containers")
     trusted = ["printers of harness/props/c11.py: hugr objects / pydantic dumps / hugr.model dataclass trees -> Gallina "
                "literals; model symbols are split into (extension, id) against the pairs occurring in the case",
                "hugr.model string/bytes forms need the absent native module: model export is compared as dataclass trees",
@@ -1106,6 +1297,13 @@ class C11(fw.Prop):
             # ... and two unresolvable nodes that differ only in their description
             {"kind": "hugr", "via": "loaded", "reg": [ext_a],
              "nodes": [ident(t_in), {**ident(t_in), "descr": "other"}]},
+            # seeded C11-c (a container that resolves only some kinds of element): a sequence directly inside a
+            # sequence, bare / as argument of an unresolvable opaque type / as type argument of a custom node
+            {"kind": "arg", "via": "loaded", "reg": [ext_a], "a": ["seq", [["seq", [["type", t_in]]]]]},
+            {"kind": "ty", "via": "loaded", "reg": [ext_a],
+             "t": ["opaque", "nowhere", "U", [["seq", [["nat", 3], ["seq", [["type", t_in]]]]]], "A"]},
+            {"kind": "hugr", "via": "loaded", "reg": [ext_a, ext_ops],
+             "nodes": [{**ident(t_in), "args": [["seq", [["seq", [["type", t_in]]], ["seq", []]]]]}]},
         ]
 
     def generate(self, rng, tier, ctx):
@@ -1159,6 +1357,8 @@ class C11(fw.Prop):
                 inner = ["ext", e, d["name"], [g.arg_for(p, 1) for p in d["params"]]]
                 t = rng.choice([inner, ["sum", [[inner, g.ty(1)]]], ["func", [inner], [g.ty(1)], []]])
                 cases.append({"kind": "ty", "via": "built", "reg": full, "mode": "complete", "t": t})
+        # path stream: every chain of containers down to an opaque type (after the older streams: their draws are unchanged)
+        cases += list(path_stream(rng, tier))
         return cases
 
     def std_sweep(self):
@@ -1361,6 +1561,8 @@ class C11(fw.Prop):
 
     # ---- reporting
     def nontrivial(self, case, obs):
+        if case.get("path", "").count("/") >= 1:      # a chain of >= 2 containers
+            return True
         if case["kind"] == "hugr":
             changed = [o for o in obs["nodes"] if o["res"] != o["op"]]
             kept = [o for o in obs["nodes"] if o["op"][0] == "custom" and o["res"][0] == "custom"]
@@ -1406,6 +1608,11 @@ class C11(fw.Prop):
         return "resolve:" + k + ":" + ("+".join(sorted(set(parts))) or "structure")
 
     def shrink(self, case):
+        # the labels of the path stream describe the generated expression, not its shrunk variants
+        for c in self._shrink({k: v for k, v in case.items() if k not in ("path", "where")}):
+            yield c
+
+    def _shrink(self, case):
         reg = case["reg"]
         for i in range(len(reg)):
             yield {**case, "reg": reg[:i] + reg[i + 1:]}
@@ -1474,6 +1681,15 @@ class C11(fw.Prop):
                 t = t.split(":")[0] + (":" + t.split(":")[-1] if ":" in t else "")
                 d.setdefault("sibling_variants", {})
                 d["sibling_variants"][t] = d["sibling_variants"].get(t, 0) + 1
+            if "path" in c:
+                steps = c["path"].split("/") if c["path"] else []
+                pl = d.setdefault("container_path_length", {})
+                pl[str(len(steps))] = pl.get(str(len(steps)), 0) + 1
+                pw = d.setdefault("container_path_where", {})
+                pw[c["where"]] = pw.get(c["where"], 0) + 1
+                pp = d.setdefault("container_directly_inside_container", {})
+                for a, b in zip(steps, steps[1:]):
+                    pp[b + " in " + a] = pp.get(b + " in " + a, 0) + 1
             nd = str(nest_depth(inp))
             d["opaque_nesting_depth"][nd] = d["opaque_nesting_depth"].get(nd, 0) + 1
             if c["kind"] == "hugr":
